@@ -85,7 +85,7 @@ def step(m, k, op, tgt, other):
         m.v[other] = list(A) + [val, val + 1, val + 2]; return '%s = %s(%s, %d, %d, %d);' % (other, APPEND, tgt, val, val + 1, val + 2)
     if op in ('readhuge', 'writehuge', 'rmhuge'):
         # integral indexes far outside the array, chosen so that truncation to 8, 16, 31, 32 or 63 bits would land inside it
-        big = ['4294967296', '4294967297', '0 - 4294967295', '65536', '256', '2147483648', '0 - 2147483648', '2 ** 53', '2 ** 62', '0 - 2 ** 63', '2 ** 63', '2 ** 64', '1e18', '18446744073709551616'][next(_huge) % 14]
+        big = ['4294967296', '4294967297', '0 - 4294967295', '65536', '256', '2147483648', '0 - 2147483648', '2 ** 53', '2 ** 62', '0 - 2 ** 63', '2 ** 63', '2 ** 64', '10 ** 18', '18446744073709551616'][next(_huge) % 14]
         m.err = True
         if op == 'readhuge': return '%s %s[%s];' % (PRINT, tgt, big)
         if op == 'writehuge': return '%s[%s] = %d;' % (tgt, big, val)
